@@ -356,7 +356,7 @@ theorem rt_num {cs : CharSpec} (n : ANum) (np : NPad) (hn : n.ok = true) (hp : n
 
 /-! ### ranges -/
 
-theorem C01_range_needs_extension' (ts : List Tok) : rangeValue (α := α) false ts = none := rfl
+theorem rt_range_needs_extension (ts : List Tok) : rangeValue (α := α) false ts = none := rfl
 
 theorem rt_findIdx_append {β : Type} (p : β → Bool) (A : List β) (x : β) (B : List β)
     (hA : ∀ t ∈ A, p t = false) (hx : p x = true) : (A ++ x :: B).findIdx? p = some A.length := by
@@ -833,7 +833,7 @@ theorem rt_range_off {cs : CharSpec} (lo hi : ANum) (p : VPad) (hp : p.ok cs = t
   have bpre := padOK_blank (hpre'.padOK_of hpre)
   have bpost := padOK_blank (hpost'.padOK_of hpost)
   unfold numOrRange
-  simp only [C01_range_needs_extension']
+  simp only [rt_range_needs_extension]
   have e : pre ++ th :: (tr ++ (m1 ++ tm :: (m2 ++ (ti ++ tl :: post)))) =
       pre ++ (th :: (tr ++ m1) ++ tm :: (m2 ++ ti) ++ [tl]) ++ post := by simp
   have htrim := rt_trim pre post (th :: (tr ++ m1) ++ tm :: (m2 ++ ti) ++ [tl]) bpre bpost (by simp)
